@@ -80,7 +80,7 @@ Lemma expand_positional_params items cbs b0 rest : items = b0 :: rest -> wf_layo
     e_params e = firstn lo b0 ++ concat (map (slice lo hi) items) ++ skipn hi b0 /\
     e_groups e = (if l_embed ly then Z.of_nat (length items) else cbs) /\
     e_counters e = (if l_embed ly then zrange 0 (length items) else []) /\
-    e_numbers e = (if l_numeric ly && (0 <? l_num_ins ly)
+    e_numbers e = (if numeric_guard (l_numeric ly) (l_num_ins ly)
                    then zrange (Z.of_nat lo + 1) (Z.to_nat (l_num_ins ly * cbs)) else []).
 Proof.
   intros Hitems [Hlen Hcnt]. subst items. unfold expand_positional. fold lo hi.
@@ -95,11 +95,11 @@ Proof.
       rewrite <- (map_id (b0 :: rest)) at 1. apply map_ext_in. intros p Hp.
       eapply Forall_forall in Hlen; [|exact Hp]. rewrite <- Hb0 in Hlen. rewrite <- Hlen. symmetry. apply slice_all.
     + unfold py_range, numeric_start, numeric_end.
-      destruct (l_numeric ly && (0 <? l_num_ins ly)); [|reflexivity]. f_equal. lia.
+      destruct (numeric_guard (l_numeric ly) (l_num_ins ly)); [|reflexivity]. f_equal. lia.
   - eexists; split; [reflexivity|]. cbn [e_params e_groups e_counters e_numbers].
     split; [reflexivity|split; [reflexivity|split; [reflexivity|]]].
     unfold py_range, numeric_start, numeric_end.
-    destruct (l_numeric ly && (0 <? l_num_ins ly)); [|reflexivity]. f_equal. lia.
+    destruct (numeric_guard (l_numeric ly) (l_num_ins ly)); [|reflexivity]. f_equal. lia.
 Qed.
 
 (* what the database binds: the placeholders are consumed left to right; |lo| of them precede the
@@ -156,7 +156,7 @@ Proof.
   intros Hitems Hwf Hcbs Hnum Hk.
   destruct (expand_positional_params items cbs b0 rest Hitems Hwf) as (e & He & _ & _ & _ & Hn).
   exists e. split; [exact He|]. destruct Hwf as [_ Hcnt]. fold lo hi k in Hcnt.
-  rewrite Hnum in Hn. destruct (0 <? l_num_ins ly) eqn:E; [|lia]. cbn [andb] in Hn. rewrite Hn.
+  unfold numeric_guard in Hn. rewrite Hnum in Hn. destruct (l_num_ins ly >? 0) eqn:E; [|lia]. cbn [andb] in Hn. rewrite Hn.
   replace (Z.to_nat (l_num_ins ly * cbs)) with (k * length items)%nat by lia.
   split; [apply zrange_length|]. intros j Hj. rewrite zrange_nth by exact Hj. lia.
 Qed.
